@@ -184,6 +184,7 @@ func websocketFacts(p *pkgInfo, out *bytes.Buffer) error {
 	sec := &sections{w: out}
 	sec.run("table of valid received close codes (C14)", func(w *bytes.Buffer) error { return websocketFactsCloseCodes(p, w) })
 	sec.run("write lock discipline (C15)", func(w *bytes.Buffer) error { return websocketFactsLocking(p, w) })
+	sec.run("opening handshake (C13)", func(w *bytes.Buffer) error { return websocketFactsHandshake(p, w) })
 	return sec.err()
 }
 
@@ -340,4 +341,37 @@ func websocketFactsLocking(p *pkgInfo, w *bytes.Buffer) error {
 	fmt.Fprintf(w, "/-- C15 fact. Evidence: `messageWriter.flushFrame` contains %d call(s) `c.write(…)` passing %d buffers; `Conn.write`\nwrites them in `for … range %s` between one `<-c.mu` and the deferred release. -/\ndef dataFrameBuffersWrittenInOneLockHold : Bool := %s\n",
 		nWrite, nBufs, variadic, boolLean(oneHold))
 	return nil
+}
+
+// websocketFactsHandshake: the GUID that computeAcceptKey hashes after the challenge key — the value of the
+// package-level `keyGUID`, whether it is a `[]byte("…")` conversion, a string constant or a string variable.
+func websocketFactsHandshake(p *pkgInfo, w *bytes.Buffer) error {
+	for _, f := range p.files {
+		for _, d := range f.Decls {
+			gd, ok := d.(*ast.GenDecl)
+			if !ok {
+				continue
+			}
+			for _, sp := range gd.Specs {
+				vs, ok := sp.(*ast.ValueSpec)
+				if !ok {
+					continue
+				}
+				for i, n := range vs.Names {
+					if n.Name != "keyGUID" || i >= len(vs.Values) {
+						continue
+					}
+					e := vs.Values[i]
+					if call, ok := e.(*ast.CallExpr); ok && len(call.Args) == 1 { // []byte("…")
+						e = call.Args[0]
+					}
+					if s, ok := p.strConst(e); ok {
+						fmt.Fprintf(w, "/-- C13 fact. The value of the package-level `keyGUID` (hashed after the challenge key by `computeAcceptKey`). -/\ndef keyGUID : String := %s\n\n", leanStr(s))
+						return nil
+					}
+				}
+			}
+		}
+	}
+	return fmt.Errorf("package-level keyGUID with a constant string value not found")
 }
